@@ -1,5 +1,6 @@
 import H2V.Lemmas.ConnCountsPLocal
 import H2V.Lemmas.ConnCountsPWitness
+import H2V.Lemmas.CompBasic
 /-
   C18 — per-connection state is bounded by configuration, whatever the peer does.
   Property theorems only (lemmas: `H2V/Lemmas/ConnCountsP*.lean`, notes: `ConnCountsPNOTES.md`).
@@ -86,11 +87,29 @@ theorem quotas_hold_everywhere {s : Streams} (h : Reach s) (hp : s.panicked = no
     s.counts.numRemoteResetStreams ≤ s.counts.maxRemoteResetStreams ∧
     (∀ m, s.counts.maxLocalErrorResetStreams = some m → s.counts.numLocalErrorResetStreams ≤ m) ∧
     s.counts.numRecvStreams ≤ s.counts.maxRecvStreams := by
-  have hi := h.inv.2 hp
+  have hi := (h.inv.2.2 hp).1
   exact ⟨hi.reset.symm, by rw [← hi.reset]; exact hi.resetLe, hi.remoteLe, hi.errLe, hi.recvLe⟩
 
 /-- non-vacuity -/
 example : Reach wS2 ∧ wS2.panicked = none := ⟨wS2_reach, wS2_facts.1⟩
+
+/-- **… end to end through `Inner::recv_data`.**  A DATA frame without END_STREAM that the stream
+    itself accepts (`Recv::recv_data` answers `Ok`) but that `Counts::record_data_frame` refuses —
+    budget exhausted by small frames, or too many empty frames — turns into the connection error
+    `GOAWAY(ENHANCE_YOUR_CALM, "too_many_data_frames")`: the peer is disconnected instead of being
+    accommodated. -/
+theorem data_flood_disconnects (s : Streams) (id k : Nat) (payload : Bytes) (pad : Option Nat)
+    (hk : s.store.findKey? id = some k)
+    (hok : (s.recvRecvData k payload false pad).2 = .ok ())
+    (hbud : ((s.recvRecvData k payload false pad).1.counts.recordDataFrame payload.length).2 = false) :
+    (s.recvData id payload false pad).2 = .error (PErr.libraryGoAwayData ENHANCE_YOUR_CALM "too_many_data_frames") :=
+  recvData_flood s id k payload pad hk hok hbud
+
+/-- non-vacuity: an open stream receives one octet while the DATA-frame budget is used up -/
+example : let fl : FlowControl := { windowSize := { val := 65535 }, available := { val := 65535 } }
+    let s : Streams := { counts := { dataFrameBudget := { available := 0, max := 25600 } }, actions := { recv := { flow := fl } }, store := { slab := [{ key := 0, id := 1, state := { inner := .open .streaming .streaming }, recvFlow := fl }], ids := [(1, 0)], nextKey := 1 } }
+    s.store.findKey? 1 = some 0 ∧ H2V.Lemmas.Comp.isOk (s.recvRecvData 0 [7] false none).2 = true ∧
+    ((s.recvRecvData 0 [7] false none).1.counts.recordDataFrame 1).2 = false := by decide
 
 #print axioms reset_flood_is_cut_off
 #print axioms error_reset_flood_is_cut_off
@@ -98,5 +117,6 @@ example : Reach wS2 ∧ wS2.panicked = none := ⟨wS2_reach, wS2_facts.1⟩
 #print axioms tiny_data_flood_is_cut_off
 #print axioms empty_data_flood_is_cut_off
 #print axioms quotas_hold_everywhere
+#print axioms data_flood_disconnects
 
 end H2V.Props.C18
